@@ -53,6 +53,7 @@ type TierCfg struct {
 }
 
 type HarnessCfg struct {
+	Race          bool     `json:"race"` // build the native replay binary with -race (all harnesses of the package dir)
 	Quick         *TierCfg `json:"quick"`
 	Thorough      *TierCfg `json:"thorough"`
 	LooseWitness  bool     `json:"loose_witness"`
@@ -650,7 +651,15 @@ func (r *runner) buildNative(dir string) (string, error) {
 	ovPath := filepath.Join(r.tmp, "overlay_"+strings.ReplaceAll(dir, "/", "_")+".json")
 	os.WriteFile(ovPath, ovj, 0o644)
 	bin := filepath.Join(r.tmp, "replay_"+strings.ReplaceAll(dir, "/", "_")+".test")
-	cmd := exec.Command("go", "test", "-c", "-vet=off", "-overlay", ovPath, "-o", bin, "./"+dir)
+	argsb := []string{"test", "-c", "-vet=off", "-overlay", ovPath, "-o", bin}
+	for _, hc := range r.cfg.Harness {
+		if hc != nil && hc.Race {
+			argsb = append(argsb, "-race")
+			break
+		}
+	}
+	argsb = append(argsb, "./"+dir)
+	cmd := exec.Command("go", argsb...)
 	cmd.Dir = repoDir
 	cmd.Env = append(os.Environ(), "GOFLAGS=-mod=mod", "GOPROXY=off", "GOSUMDB=off", "GOTOOLCHAIN=local")
 	out, err := cmd.CombinedOutput()
@@ -684,7 +693,11 @@ func runNativeBin(bin, casePath, cwd string) (*nativeOut, error) {
 	outb, err := cmd.CombinedOutput()
 	out := string(outb)
 	o := &nativeOut{raw: tail(out, 3000)}
+	raceLabel := ""
 	for _, l := range strings.Split(out, "\n") {
+		if strings.HasPrefix(l, "VERIF-RACE-LABEL ") {
+			raceLabel = strings.TrimSpace(strings.TrimPrefix(l, "VERIF-RACE-LABEL "))
+		}
 		if strings.HasPrefix(l, "VERIF-OBS ") {
 			p := strings.SplitN(l, " ", 3)
 			if len(p) == 3 {
@@ -709,6 +722,9 @@ func runNativeBin(bin, casePath, cwd string) (*nativeOut, error) {
 				o.msg = strings.Join(p[2:], " ")
 			}
 		}
+	}
+	if strings.Contains(out, "WARNING: DATA RACE") && raceLabel != "" {
+		o.outcome, o.label, o.msg = "fail", raceLabel, "race detector: "+firstLineWith(out, "Write at", "Read at", "Previous write", "Previous read")
 	}
 	if o.outcome == "" {
 		if ee, ok := err.(*exec.ExitError); ok {
@@ -784,6 +800,9 @@ func cmdReplay(args []string) int {
 		return 2
 	}
 	r := &runner{id: rc.Prop, bins: map[string]string{}}
+	if data, err := os.ReadFile(filepath.Join(verifDir, "harness", rc.Prop, "config.json")); err == nil {
+		json.Unmarshal(data, &r.cfg)
+	}
 	r.hfs, err = loadHarnessFiles(rc.Prop)
 	if err != nil {
 		fmt.Println(err)
